@@ -324,6 +324,10 @@ func (m *Machine) assertProp(label string, c Value) {
 		panic(pathEnd{kind: "violation", msg: label})
 	case *Term:
 		r, mo := m.check(m.tf.Not(cv))
+		if r != "sat" && r != "unsat" {
+			// solver timeouts under machine load are transient: one retry
+			r, mo = m.check(m.tf.Not(cv))
+		}
 		if sh := m.solver.shadow; sh != nil && (r == "sat" || r == "unsat") {
 			r2, _ := sh.Check(m.tf.Not(cv), false)
 			switch {
